@@ -101,6 +101,7 @@ class Sim:
         self.instr_codes = []
         self.focus_hits = 0
         self.lock_yields = 0
+        self.blocked = set()       # clients currently waiting for a lock
         st = spec['strategy']
         self.kind = st['kind']
         if self.kind == 'replay':
@@ -276,7 +277,10 @@ class Sim:
             if fl and fl[0][0] == ev:
                 kind = fl.pop(0)[1]
             if kind is not None:
-                if sc & 2:
+                if sc & 2 and not simlock.HELD.get(c.thread.ident):
+                    # (never while the client holds a lock of the simulated code base: an asynchronous exception that lands
+                    # on the exit path of a `with lock:` statement leaks the lock in CPython itself; that is not the
+                    # library's doing, and the fault simply fires at the next event after the lock is released)
                     c.pending_fault = None
                     c.fired.append([c.op_i, ev, kind, '%s:%d' % (code.co_name, pos)])
                     if kind == 'abort':
@@ -331,23 +335,28 @@ class Sim:
         """Client c (holding the baton) cannot get a lock: run somebody else, deterministically the owner if it
         is a client, else the next runnable client; return when c is scheduled again."""
         self._sync(c)
+        self.blocked.add(c.cid)
         nxt = None
         for x in self.clients:
-            if x is not c and not x.done and x.thread is not None and x.thread.ident == owner_tid:
+            if x is not c and not x.done and x.cid not in self.blocked and x.thread is not None and x.thread.ident == owner_tid:
                 nxt = x
         if nxt is None:
             n = len(self.clients)
             for i in range(1, n):
                 x = self.clients[(c.cid + i) % n]
-                if not x.done:
+                if not x.done and x.cid not in self.blocked:
                     nxt = x
                     break
         if nxt is None:
+            # every other client is finished or itself waiting for a lock: nobody can release this one (e.g. it was
+            # leaked by an aborted call).  The waiting op is aborted; reported as a liveness (I3) violation.
+            self.blocked.discard(c.cid)
             raise SimDeadlock()
         self.lock_yields += 1
         self.switch_sites.append((c.cid, -1, nxt.cid))
         self._handoff(nxt)
         c.sem.acquire()
+        self.blocked.discard(c.cid)
 
     def _overlap(self, c):
         """Rare-condition probe: which in-scope functions are on the stacks of two clients at once."""
